@@ -300,8 +300,10 @@ PROPS["C15"] = dict(
           "StandardDataDictionary::indexed_tag == the precedence of the statement (exact, repeating group, repeating "
           "element, private creator, group length, nothing) for every tag, over the registry view (by_tag, ggxx, eexx); "
           "StandardDataDictionaryRegistry::index files each entry under TagRange::inner and registers repeating ranges, "
-          "preserving the registry invariant; TagRange::inner",
-          expected_verified=8),
+          "preserving the registry invariant; TagRange::inner; StandardDataDictionaryRegistry::new gives an empty registry and "
+          "init_dictionary (the loop that builds the singleton) returns a registry that satisfies the invariant indexed_tag requires, with every "
+          "row of the table filed under its inner tag and every repeating row registered — for a table of ANY length",
+          expected_verified=11),
         N("C15.exhaustive",
           "cp /repo/Cargo.lock /verif/witness/Cargo.lock && CARGO_TARGET_DIR=/verif/build/witness cargo run --offline -q --release "
           "--manifest-path /verif/witness/Cargo.toml --bin c15_exhaustive 2>&1 | grep -E '^(WITNESS|EXHAUSTIVE|SKIPPED|error)' | tail -220",
@@ -318,8 +320,10 @@ PROPS["C15"] = dict(
         "C15.exhaustive is an enumeration of the compiled code over all 2^32 tags against the table read from the text of tags.rs — a stand-in "
         "that survives representation refactors of the registry; it is not a deductive result and is not counted in obligations/discharged",
         "HashMap/HashSet get/insert/contains behave as Map/Set (std collections assumed)",
-        "registry() returns the registry built by init_dictionary: `for entry in ENTRIES { d.index(entry) }` (3-line loop and the "
-        "once_cell lazy static are not verified; the invariant is established by new() and preserved by index)",
+        "registry() returns the registry built by init_dictionary (the once_cell lazy static DICT is not verified); init_dictionary itself and "
+        "StandardDataDictionaryRegistry::new are under contract: the result satisfies the registry invariant that indexed_tag requires, every row "
+        "of ENTRIES is filed under its inner tag and every repeating row is registered (loop invariant over the table; `for entry in ENTRIES` is "
+        "rewritten to an index loop over an abstract static slice — declared rewrite; HashMap/HashSet::with_capacity/new give empty collections)",
         "Option::or_else contract assumed (calls the closure iff None); closure postconditions are ghost annotations inserted by a declared rewrite",
         "(lo..=hi).contains(&x) rewritten to a verified helper with the same meaning",
     ],
